@@ -1,6 +1,12 @@
 package c06
 
 import (
+	"fmt"
+
+	"github.com/wader/fq/verif/lib/containers"
+	"github.com/wader/fq/verif/lib/pcapgen"
+	"pgregory.net/rapid"
+
 	"archive/tar"
 	"archive/zip"
 	"bytes"
@@ -97,7 +103,65 @@ func generated() map[string][]byte {
 		m["gen/bson/doc.bson"] = []byte{0x16, 0, 0, 0, 0x02, 'h', 'e', 0, 0x06, 0, 0, 0, 'w', 'o', 'r', 'l', 'd', 0, 0x10, 'n', 0, 0x2a, 0, 0, 0, 0}[:22]
 		m["gen/bencode/d.bencode"] = []byte("d1:ai1e1:bl1:xi-2eee")
 		m["gen/asn1_ber/seq.ber"] = []byte{0x30, 0x0b, 0x02, 0x01, 0x05, 0x0c, 0x03, 'a', 'b', 'c', 0x01, 0x01, 0xff}
+		addLibFiles(m)
 		genMap = m
 	})
 	return genMap
+}
+
+// addLibFiles adds files produced by the independent writers built for C15
+// (lib/containers, rapid-generated specs drawn with fixed example seeds), C16
+// (lib/enc is used through the fixed byte strings above) and C19 (lib/pcapgen).
+func addLibFiles(m map[string][]byte) {
+	ex := func(i int, fn func(rt *rapid.T) []byte) []byte {
+		var out []byte
+		func() {
+			defer func() { _ = recover() }()
+			out = rapid.Custom(fn).Example(i)
+		}()
+		return out
+	}
+	add := func(format, name string, b []byte) {
+		if len(b) > 0 && len(b) <= 48*1024 {
+			m["gen/"+format+"/"+name] = b
+		}
+	}
+	for i := 0; i < 4; i++ {
+		add("gzip", fmt.Sprintf("c%d.gz", i), ex(i, func(rt *rapid.T) []byte { b, _, _ := containers.BuildGzip(containers.GenGzip(rt, "g")); return b }))
+		add("zip", fmt.Sprintf("c%d.zip", i), ex(i, func(rt *rapid.T) []byte { b, _, _ := containers.BuildZip(containers.GenZip(rt, "z")); return b }))
+		add("tar", fmt.Sprintf("c%d.tar", i), ex(i, func(rt *rapid.T) []byte { b, _, _ := containers.BuildTar(containers.GenTar(rt, "t")); return b }))
+		add("png", fmt.Sprintf("c%d.png", i), ex(i, func(rt *rapid.T) []byte { b, _, _ := containers.BuildPNG(containers.GenPNG(rt, "p")); return b }))
+		add("gif", fmt.Sprintf("c%d.gif", i), ex(i, func(rt *rapid.T) []byte { b, _, _ := containers.BuildGIF(containers.GenGIF(rt, "i")); return b }))
+		add("wav", fmt.Sprintf("c%d.wav", i), ex(i, func(rt *rapid.T) []byte { b, _, _ := containers.BuildWAV(containers.GenWAV(rt, "w")); return b }))
+	}
+	// one small TCP conversation in four capture flavours
+	cip, sip := [4]byte{10, 0, 0, 1}, [4]byte{10, 0, 0, 2}
+	seg := func(fromClient bool, seq, ack uint32, flags uint8, payload []byte) []byte {
+		h := pcapgen.TCPHeader{SrcPort: 40000, DstPort: 80, Seq: seq, Ack: ack, Flags: flags, Window: 1000}
+		ih := pcapgen.IPv4Header{TTL: 64, Proto: pcapgen.ProtoTCP, Src: cip, Dst: sip, ID: uint16(seq)}
+		if !fromClient {
+			h.SrcPort, h.DstPort = 80, 40000
+			ih.Src, ih.Dst = sip, cip
+		}
+		return pcapgen.IPv4(ih, pcapgen.TCP(h, ih.Src[:], ih.Dst[:], payload))
+	}
+	req, resp := []byte("GET / HTTP/1.0\r\n\r\n"), []byte("HTTP/1.0 200 OK\r\n\r\nhello")
+	ips := [][]byte{
+		seg(true, 100, 0, pcapgen.SYN, nil),
+		seg(false, 500, 101, pcapgen.SYN|pcapgen.ACK, nil),
+		seg(true, 101, 501, pcapgen.ACK, nil),
+		seg(true, 101, 501, pcapgen.ACK|pcapgen.PSH, req),
+		seg(false, 501, 101+uint32(len(req)), pcapgen.ACK|pcapgen.PSH, resp),
+		seg(true, 101+uint32(len(req)), 501+uint32(len(resp)), pcapgen.ACK|pcapgen.FIN, nil),
+		seg(false, 501+uint32(len(resp)), 102+uint32(len(req)), pcapgen.ACK|pcapgen.FIN, nil),
+	}
+	var eth, raw []pcapgen.Record
+	for i, p := range ips {
+		eth = append(eth, pcapgen.Record{TsSec: uint32(i), Data: pcapgen.Ethernet([6]byte{1, 2, 3, 4, 5, 6}, [6]byte{7, 8, 9, 10, 11, 12}, 0x0800, -1, 0, p)})
+		raw = append(raw, pcapgen.Record{TsSec: uint32(i), Data: p})
+	}
+	add("pcap", "eth_le.pcap", pcapgen.WritePcap(pcapgen.PcapOpts{LinkType: pcapgen.LinkEthernet, Snaplen: 65535}, eth))
+	add("pcap", "raw_be_ns.pcap", pcapgen.WritePcap(pcapgen.PcapOpts{BigEndian: true, Nano: true, LinkType: pcapgen.LinkRaw, Snaplen: 65535}, raw))
+	add("pcapng", "eth.pcapng", pcapgen.WritePcapNG(pcapgen.NGOpts{Ifaces: []pcapgen.NGIface{{LinkType: pcapgen.LinkEthernet}}}, eth))
+	add("pcapng", "raw_be.pcapng", pcapgen.WritePcapNG(pcapgen.NGOpts{BigEndian: true, ExplicitSectionLength: true, Ifaces: []pcapgen.NGIface{{LinkType: pcapgen.LinkRaw}}}, raw))
 }
